@@ -191,6 +191,7 @@ type concResult struct {
 	Outcome        concOutcome `json:"outcome"`
 	Paused         bool        `json:"paused"`
 	OthersFinished []bool      `json:"others_finished_while_victim_paused"`
+	Units          []int       `json:"units_first_thread"`
 	Trace          []string    `json:"victim_lock_trace"`
 	Hung           bool        `json:"hung"`
 }
@@ -217,11 +218,36 @@ func runConc(cc concCase) (concResult, error) {
 	ctl.ResetTrace()
 	res.Paused = ctl.StartVictim(func() { runThread(cc.Victim) }, cc.K)
 	var waits []func()
-	if res.Paused {
+	// a continuation thread runs in the goroutine of its first part when both run during the pause
+	inOrder := func(x int) bool {
 		for _, t := range cc.Order {
-			t := t
-			done, wait := hutil.RunTimeout(func() { runThread(t) }, 25*time.Millisecond)
+			if t == x {
+				return true
+			}
+		}
+		return false
+	}
+	var units [][]int
+	for _, t := range cc.Order {
+		if len(cc.Chain) == 2 && t == cc.Chain[1] && inOrder(cc.Chain[0]) {
+			continue
+		}
+		u := []int{t}
+		if len(cc.Chain) == 2 && t == cc.Chain[0] && inOrder(cc.Chain[1]) {
+			u = append(u, cc.Chain[1])
+		}
+		units = append(units, u)
+	}
+	if res.Paused {
+		for _, u := range units {
+			u := u
+			done, wait := hutil.RunTimeout(func() {
+				for _, t := range u {
+					runThread(t)
+				}
+			}, 25*time.Millisecond)
 			res.OthersFinished = append(res.OthersFinished, done)
+			res.Units = append(res.Units, u[0])
 			waits = append(waits, wait)
 		}
 		ctl.Resume()
@@ -547,7 +573,7 @@ func concMain(out string, n int, seed uint64, prop string) {
 								// the call is not a critical section of one correlator-wide mutex (model: locked = true)
 								sum.FailKey("harness", "conc:call-not-atomic",
 									fmt.Sprintf("T%d ran to completion while T%d was paused inside a correlator call (before %v): calls are not critical sections of one mutex, as the model assumes",
-										ord[i], victim, lastOf(res.Trace)), map[string]any{"conc": cc})
+										res.Units[i], victim, lastOf(res.Trace)), map[string]any{"conc": cc})
 							}
 						}
 						if len(sum.Samples) < 3 {
